@@ -154,6 +154,8 @@ type World struct {
 	lenBefore      int  // log length before the write in progress
 	heldFirst      map[string]chan struct{}
 	heldTaken      map[string]chan struct{}
+	acSimple  bool     // scenario flag ac=simple: the `simple` access controller instead of the default `ipfs` one
+	acWrite   []string // its write list
 	reuseOpts      bool // address family: each peer passes one options value to every create/open
 	peerOpts       map[int]*orbitdb.CreateDBOptions
 	unserved       map[int]bool // peers whose instance stopped taking direct-channel messages
@@ -250,7 +252,7 @@ func (w *World) startInstance(p *Peer) error {
 	id := w.net.ids[p.idx].String()
 	odb, err := orbitdb.NewOrbitDB(w.ctx, p.api, &orbitdb.NewOrbitDBOptions{
 		ID: &id, Directory: &dir, Keystore: p.ks, Cache: p.cache, Identity: p.identity,
-		PubSub: &simPubSub{net: w.net, p: p.idx}, DirectChannelFactory: w.net.dcFactory(p.idx),
+		PubSub: &switchPS{net: w.net, p: p.idx, api: p.api}, DirectChannelFactory: w.net.dcFactory(p.idx),
 	})
 	if err != nil {
 		return err
@@ -887,7 +889,16 @@ func (w *World) storeOptions() *orbitdb.CreateDBOptions {
 	if w.revTie {
 		o.SortFn = revTieSort
 	}
+	if w.acSimple {
+		o.AccessController = w.simpleAC()
+	}
 	return o
+}
+
+// simpleAC: the `simple` access controller keeps its write list only in the options it is created
+// from (nothing is stored with the database): every peer passes the same list at every open.
+func (w *World) simpleAC() accesscontroller.ManifestParams {
+	return accesscontroller.NewSimpleManifestParams("simple", map[string][]string{"write": append([]string(nil), w.acWrite...)})
 }
 
 func aclParams(write []string) accesscontroller.ManifestParams {
@@ -920,9 +931,12 @@ func (w *World) openDB(kind, name string, write []string, peers []int) error {
 			opts.Create = nil
 			opts.StoreType = nil
 		}
-		if i == 0 {
+		if w.acSimple {
+			opts.AccessController = w.simpleAC()
+		} else if i == 0 {
 			opts.AccessController = aclParams(write)
-		} else {
+		}
+		if i != 0 {
 			target = addr
 		}
 		switch kind {
@@ -941,6 +955,9 @@ func (w *World) openDB(kind, name string, write []string, peers []int) error {
 		if i == 0 {
 			addr = s.Address().String()
 			w.dbAddr = addr
+		}
+		if w.acSimple {
+			w.printf("actype %d %s\n", p, s.AccessController().Type())
 		}
 		w.stores[p] = s
 		w.registerStore(s)
